@@ -40,6 +40,8 @@ class S(Strategy):
             import jesse.indicators as ta
             seen['sma'] = round(float(ta.sma(self.candles, self.sma_period)), 8)
         if self.index == 0:
+            seen['rows_at_start'] = len(self.candles)
+            seen['first_close'] = round(float(self.candles[0][2]), 8)
             seen['shared'] = dict(self.shared_vars)
             seen['leverage'] = self.leverage
             seen['fee_rate'] = self.fee_rate
@@ -79,6 +81,12 @@ def session(cfg):
         data_routes = []
     keep_dr = [dict(r_) for r_ in data_routes]
     arr = candles()
+    warm = None
+    if cfg.get('warm_rows'):
+        # explicit warm-up candles: the first rows of a longer series (the same first minute whatever their number)
+        full = candles(90 + cfg['warm_rows'])
+        full[:, 0] -= 0        # timestamps start at TS0 for every size: sessions with other sizes share the first warm-up minute
+        warm, arr = full[:cfg['warm_rows']].copy(), full[cfg['warm_rows']:].copy()
     if cfg.get('scale'):
         arr[:, 1:5] *= cfg['scale']
     keep = arr.copy()
@@ -90,7 +98,11 @@ def session(cfg):
         CANDLES.update(cd)
         cd = CANDLES
     try:
-        r = research.backtest(c, routes, data_routes, cd, generate_logs=bool(cfg.get('logs')))
+        if warm is not None:
+            r = research.backtest(c, routes, data_routes, cd, warmup_candles={f'{ex}-BTC-USDT': {'exchange': ex, 'symbol': 'BTC-USDT', 'candles': warm}},
+                                  generate_logs=bool(cfg.get('logs')))
+        else:
+            r = research.backtest(c, routes, data_routes, cd, generate_logs=bool(cfg.get('logs')))
     except Exception as e:
         if cfg.get('abort'):
             return {'aborted': type(e).__name__}
@@ -144,6 +156,9 @@ SCENARIOS = {
     'same-candles-object-new-content': ([{'exchange': 'Sandbox', 'shared_candles': True}], {'exchange': 'Sandbox', 'shared_candles': True, 'scale': 1.5}),
     # an earlier session that asked for its log file
     'logs-then-plain': ([{'exchange': 'Sandbox', 'logs': True}], {'exchange': 'Sandbox'}),
+    # explicit warm-up candles of another size (same first minute) in an earlier session, 5m route
+    'explicit-warm-up-of-another-size': ([{'exchange': 'Sandbox', 'timeframe': '5m', 'warm_rows': 25, 'warmup': 25}],
+                                         {'exchange': 'Sandbox', 'timeframe': '5m', 'warm_rows': 45, 'warmup': 45}),
     'spot-then-futures': ([{'exchange': 'Sandbox', 'type': 'spot'}], {'exchange': 'Sandbox', 'type': 'futures', 'leverage': 3}),
 }
 
@@ -216,7 +231,7 @@ def replay(pl):
             return {'confirmed': False, 'error': err}
         return {'confirmed': bool(d), 'detail': d or 'equal calls return equal, unshared results'}
     # the recorded finding (exchange-driver table frozen at the first session) is replayed by replay_finding only
-    order = ['memo', 'vars', 'spot-then-futures', 'warmup', 'aborted-then-other-timeframes', 'same-data-routes-twice', 'aborted-with-a-pending-market-order', 'same-candles-object-new-content', 'logs-then-plain']
+    order = ['memo', 'vars', 'spot-then-futures', 'warmup', 'aborted-then-other-timeframes', 'same-data-routes-twice', 'aborted-with-a-pending-market-order', 'same-candles-object-new-content', 'logs-then-plain', 'explicit-warm-up-of-another-size']
     if ob.startswith('drivers'):
         order = ['drivers']
     elif ob.startswith('store-reset'):
